@@ -48,7 +48,27 @@ def modifier_cases(tier):
             }
 
 
+def modifier_thermal_cases(tier):
+    """ODE modifiers on networks that also carry the temperature equation (n_eqns = n_spec + 1):
+    every target species x dependency lists of length 0..2"""
+    base = [[["H", "e-"], ["H+", "e-", "e-"]], [["H+", "e-"], ["H"]]]
+    sp = ["H", "e-", "H+"]
+    deps = [()] + [(a,) for a in sp] + list(itertools.product(sp, repeat=2))
+    cools = [["CIC_HI"]] if tier == "quick" else [["CIC_HI"], ["CIC_HI", "RC_HII"]]
+    for cool in cools:
+        for tgt in sp:
+            for d in deps:
+                yield {"reactions": base, "cooling": cool, "ode_modifier": {tgt: {"factors": ["0.25"], "reactants": [list(d)]}}, "family": "MOD+T"}
+        yield {
+            "reactions": base,
+            "cooling": cool,
+            "ode_modifier": {"H+": {"factors": ["f", "-g"], "reactants": [["H", "e-"], ["H+"]]}, "e-": {"factors": ["h"], "reactants": [["H"]]}},
+            "family": "MOD+T",
+        }
+
+
 def cases(tier):
+    yield from modifier_thermal_cases(tier)
     yield from oc.enum_special(tier)
     yield from oc.enum_S1(tier)
     yield from oc.enum_S2(tier)
